@@ -1343,6 +1343,100 @@ SEED_TEXTS = [
 ]
 
 
+
+# ---- every gate text under both tree backends and through every public entry point ---------------
+def gate_routes():
+    """name -> callable(expr, text, parser_kwargs) evaluating `expr` (which uses $x) with the real library.
+    The backend that fn:parse-xml uses is chosen by the dynamic context (context.etree): ElementTree
+    unless the context's root / item is an lxml node."""
+    import xml.etree.ElementTree as ET
+    import lxml.etree as LX
+    from elementpath import select, Selector, XPathContext
+    from elementpath.xpath31 import XPath31Parser
+    et_root = ET.XML('<a><b>x</b></a>')
+    lx_root = LX.XML('<a><b>x</b></a>')
+    lx_doc = LX.ElementTree(LX.XML('<a><b>x</b></a>'))
+
+    def by_context(**ctx_kw):
+        def go(expr, text, pkw):
+            tok = XPath31Parser(**pkw).parse(expr)
+            return tok.evaluate(XPathContext(variables={'x': text}, **ctx_kw))
+        return go
+
+    def by_select(rt):
+        def go(expr, text, pkw):
+            r = select(rt, expr, parser=XPath31Parser, variables={'x': text}, **pkw)
+            return r[0] if isinstance(r, list) and len(r) == 1 else r
+        return go
+
+    def by_selector(rt):
+        def go(expr, text, pkw):
+            r = Selector(expr, parser=XPath31Parser, **pkw).select(rt, variables={'x': text})
+            return r[0] if isinstance(r, list) and len(r) == 1 else r
+        return go
+    return {
+        'et:context-root': by_context(root=et_root),
+        'et:context-item': by_context(item=et_root[0]),
+        'none:bare-item': by_context(item=1),
+        'lxml:context-root': by_context(root=lx_root),
+        'lxml:context-doc': by_context(root=lx_doc),
+        'lxml:context-item': by_context(item=lx_root[0]),
+        'et:select': by_select(et_root),
+        'lxml:select': by_select(lx_root),
+        'lxml:select-doc': by_select(lx_doc),
+        'et:selector': by_selector(et_root),
+        'lxml:selector': by_selector(lx_root),
+    }
+
+
+_ROUTES = None
+
+
+def eval_gate(route, fn, text, df):
+    """canonical outcome of string(fn($x)) through one route"""
+    from elementpath.exceptions import XMLResourceForbidden
+    global _ROUTES
+    if _ROUTES is None:
+        _ROUTES = gate_routes()
+    pkw = {} if df == 'D' else {'defuse_xml': df == '1'}
+    try:
+        r = _ROUTES[route](f'string({fn}($x))', text, pkw)
+        return 'ok:' + enc(r if isinstance(r, str) else repr(r))
+    except XMLResourceForbidden:
+        return 'ERR:forbidden'
+    except BaseException as e:
+        return canon_exc(e)
+
+
+def all_routes():
+    global _ROUTES
+    if _ROUTES is None:
+        _ROUTES = gate_routes()
+    return list(_ROUTES)
+
+
+def compare_gate_routes(run: Run, text, df, must, et_outcomes, expands=('EXPANDED', 'boom')):
+    """the property through every route: a text that declares an entity is rejected under the default
+    settings whatever the backend / entry point; and the defusing verdict does not depend on the route"""
+    st = run.stats
+    for route in all_routes():
+        if route == 'et:context-root':
+            continue                         # the reference run (compared with the model by the caller)
+        for fn in ('parse-xml', 'parse-xml-fragment'):
+            impl = eval_gate(route, fn, text, df)
+            st.count('gate-route:' + route)
+            ref = et_outcomes[fn]
+            spec = None
+            if must:
+                spec = impl if impl.startswith('ERR:') else 'ERR:(rejected)'
+            # defuse_xml runs before the backend's parser: a forbidden verdict is route independent
+            forb_mismatch = (ref == 'ERR:forbidden') != (impl == 'ERR:forbidden')
+            if (spec is not None and impl != spec) or forb_mismatch:
+                run.disagree(Disagreement({'defuse_xml': df, 'xml': text, 'fn': fn, 'route': route}, impl,
+                                          ref if forb_mismatch else None, spec=spec, what='entity-gate-route',
+                                          site='_xpath30_functions.py ' + fn + ' (context.etree = ' + route.split(':')[0] + ')'))
+
+
 def compare_xml_text(run: Run, cases):
     from elementpath import XPathContext
     from elementpath.xpath31 import XPath31Parser
@@ -1361,16 +1455,10 @@ def compare_xml_text(run: Run, cases):
         st.count('xmltext:' + ('ill-formed-mutation' if must is None else 'entity-declared' if must else 'harmless'))
         if fs['forbidden'] == '1':
             st.count('xmltext:scan-forbidden')
+        et_outcomes = {}
         for fn, key in (('parse-xml', 'xml'), ('parse-xml-fragment', 'frag')):
-            try:
-                p = XPath31Parser() if df == 'D' else XPath31Parser(defuse_xml=(df == '1'))
-                ctx = XPathContext(root(), variables={'x': text})
-                r = p.parse(f'string({fn}($x))').evaluate(ctx)
-                impl = 'ok:' + enc(r)
-            except XMLResourceForbidden:
-                impl = 'ERR:forbidden'
-            except BaseException as e:
-                impl = canon_exc(e)
+            impl = eval_gate('et:context-root', fn, text, df)
+            et_outcomes[fn] = impl
             model = fs[key]
             if fn == 'parse-xml-fragment' and impl.startswith('ok:') and fs['parsed'] == '0':
                 continue      # the `<document>` wrapper retry accepts some ill-formed fragments: outside the model
@@ -1381,6 +1469,8 @@ def compare_xml_text(run: Run, cases):
             if impl != model or (spec is not None and impl != spec):
                 run.disagree(Disagreement(dict(case, fn=fn), impl, model, spec=spec, what='entity-gate-text',
                                           site='etree.py defuse_xml / _xpath30_functions.py ' + fn))
+        if df in ('D', '1') and len(text) < 5000:
+            compare_gate_routes(run, text, df, bool(must), et_outcomes)
 
 
 def correspond_gates(run: Run):
@@ -1434,6 +1524,20 @@ def search(run: Run):
         done = min(len(cases), i + 300)
         if any(d.kind == 'violation' and not d.tags for d in sub.disagreements):
             break                                  # a failing input is in hand
+    # the gate corpus through every backend / entry point, against the spec alone
+    ngate = 0
+    for text, declok, must in SEED_TEXTS:
+        if not must or len(text) > 5000:
+            continue
+        ets = {}
+        for fn in ('parse-xml', 'parse-xml-fragment'):
+            ets[fn] = eval_gate('et:context-root', fn, text, 'D')
+            if not ets[fn].startswith('ERR:'):
+                sub.disagree(Disagreement({'defuse_xml': 'D', 'xml': text, 'fn': fn, 'route': 'et:context-root'}, ets[fn],
+                                          None, spec='ERR:(rejected)', what='entity-gate-route'))
+        compare_gate_routes(sub, text, 'D', True, ets)
+        ngate += 1
+    run.notes.append(f'search: {ngate} entity-declaring gate texts x {len(all_routes())} routes x 2 functions')
     run.notes.append(f'search: {done} of {len(cases)} exhaustive small-scope histories on the real code, '
                      f'{len(sub.disagreements)} disagreements')
     return sub.disagreements
@@ -1616,6 +1720,111 @@ def scan_sources(pkg_root: Path) -> dict:
     return {'facts': {k: sorted(v) for k, v in facts.items()}, 'static_writers': static_writers, 'files': nfiles}
 
 
+
+XML_PARSE_CALLEES = {'XML', 'XMLID', 'fromstring', 'fromstringlist', 'parse', 'iterparse', 'XMLPullParser',
+                     'parseString', 'ParserCreate', 'feed'}
+XML_RECEIVERS = {'etree', 'ElementTree', 'ET', 'lxml_etree', 'pulldom', 'minidom', 'sax', 'expat', 'expatreader',
+                 'html'}
+
+
+def scan_parse_sites(pkg_root: Path) -> list:
+    """every call in the package that hands text to an XML parser — `<etree-like>.XML(..)`,
+    `.fromstring(..)`, `.parse(..)`, `.iterparse(..)`, `pulldom.parse(..)`, .. — with a syntactic verdict
+    on its protection against entity declarations:
+      wrapped        the argument is `defuse_xml(..)` itself
+      dominated      a `defuse_xml(..)` call precedes it and is nested under no conditional / loop / try that
+                     does not also enclose the parse call, other than a test of the `defuse_xml` option
+      optout         it is the `else` branch of a test of the `defuse_xml` option (explicit opt-out)
+      inside-element the argument is a literal/f-string that starts with a start tag (`<document>{..}`): a DOCTYPE
+                     cannot occur in element content
+      guard-impl     the scan inside `defuse_xml` itself (parser argument built from SafeExpatParser)
+      unguarded      none of these"""
+    import ast
+    sites = []
+    for path in sorted(pkg_root.rglob('*.py')):
+        mod = '.'.join(path.relative_to(pkg_root.parent).with_suffix('').parts)
+        tree = ast.parse(path.read_text())
+        qn = _qualname_map(tree)
+        parents = {}
+        for n in ast.walk(tree):
+            for ch in ast.iter_child_nodes(n):
+                parents[ch] = n
+
+        def recv_name(f):
+            v = f.value
+            if isinstance(v, ast.Name):
+                return v.id
+            if isinstance(v, ast.Attribute):
+                return v.attr           # context.etree.XML -> 'etree'
+            return None
+
+        def chain(node):
+            """enclosing compound statements up to the function: [(stmt, field)] innermost first"""
+            out = []
+            cur = node
+            while cur in parents:
+                par = parents[cur]
+                if isinstance(par, (ast.FunctionDef, ast.AsyncFunctionDef, ast.Module, ast.ClassDef)):
+                    break
+                if isinstance(par, (ast.If, ast.For, ast.While, ast.Try, ast.With, ast.AsyncWith, ast.AsyncFor)):
+                    field = next((fld for fld in ('body', 'orelse', 'handlers', 'finalbody')
+                                  if cur in (getattr(par, fld, None) or [])), 'test')
+                    out.append((par, field))
+                elif isinstance(par, ast.ExceptHandler):
+                    pass
+                cur = par
+            return out
+
+        def mentions_option(test):
+            return any((isinstance(x, ast.Attribute) and x.attr == 'defuse_xml') or
+                       (isinstance(x, ast.Name) and x.id == 'defuse_xml') for x in ast.walk(test))
+
+        def enclosing_function(node):
+            cur = node
+            while cur in parents:
+                cur = parents[cur]
+                if isinstance(cur, (ast.FunctionDef, ast.AsyncFunctionDef)):
+                    return cur
+            return None
+        for n in ast.walk(tree):
+            if not (isinstance(n, ast.Call) and isinstance(n.func, ast.Attribute)):
+                continue
+            callee = n.func.attr
+            if callee not in XML_PARSE_CALLEES or recv_name(n.func) not in XML_RECEIVERS:
+                continue
+            where = qn.get(n, '<module>')
+            arg = n.args[0] if n.args else None
+            kind = 'unguarded'
+            fn = enclosing_function(n)
+            my_chain = chain(n)
+            if fn is not None and fn.name == 'defuse_xml':
+                kind = 'guard-impl'
+            elif isinstance(arg, ast.Call) and (getattr(arg.func, 'id', None) == 'defuse_xml' or
+                                                getattr(arg.func, 'attr', None) == 'defuse_xml'):
+                kind = 'wrapped'
+            elif any(isinstance(st, ast.If) and fld == 'orelse' and mentions_option(st.test) for st, fld in my_chain):
+                kind = 'optout'
+            elif isinstance(arg, ast.JoinedStr) and arg.values and isinstance(arg.values[0], ast.Constant) and \
+                    str(arg.values[0].value)[:1] == '<' and str(arg.values[0].value)[1:2].isalpha():
+                kind = 'inside-element'
+            elif isinstance(arg, ast.Constant):
+                kind = 'inside-element' if str(arg.value)[:1] == '<' else 'unguarded'
+            elif fn is not None:
+                mine = {id(st) for st, _ in my_chain}
+                for g in ast.walk(fn):
+                    if isinstance(g, ast.Call) and (getattr(g.func, 'id', None) == 'defuse_xml' or
+                                                    getattr(g.func, 'attr', None) == 'defuse_xml'):
+                        if (g.lineno, g.col_offset) >= (n.lineno, n.col_offset):
+                            continue
+                        extra = [(st, fld) for st, fld in chain(g) if id(st) not in mine]
+                        if all(isinstance(st, ast.If) and fld == 'body' and mentions_option(st.test)
+                               for st, fld in extra):
+                            kind = 'dominated'
+            sites.append((mod, where, f'{recv_name(n.func)}.{callee}', kind, n.lineno))
+    sites.sort(key=lambda x: (x[0], x[4]))
+    return [(m, w, c, k) for m, w, c, k, _ in sites]
+
+
 def _fingerprint_globals(mods):
     """(module, name) -> fingerprint of every module-level / class-level mutable container and memo cache"""
     import collections
@@ -1725,6 +1934,7 @@ def translate(run: Run) -> dict:
     reentrant = type(lk) is type(threading.RLock())
     scan = scan_sources(Path(REPO) / 'elementpath')
     dyn = dynamic_globals()
+    parse_sites = scan_parse_sites(Path(REPO) / 'elementpath')
     f = scan['facts']
 
     def b(x):
@@ -1763,6 +1973,10 @@ def translate(run: Run) -> dict:
         'reached through an object other than `self`) that some function body mutates or rebinds: (module, name) -/',
         f'def staticallyWrittenGlobals : List (String × String) := '
         f'{_lean_pairs([(m, g) for m, g, _ in scan["static_writers"]])}',
+        '/-- every call that hands text to an XML parser: (module, function, callee, protection) with protection in',
+        'wrapped / dominated / optout / inside-element / guard-impl / unguarded (harness/c19.py::scan_parse_sites) -/',
+        'def xmlParseSites : List (String × String × String × String) := [' + ', '.join(
+            f'({_lean_str(a)}, {_lean_str(b)}, {_lean_str(c)}, {_lean_str(d)})' for a, b, c, d in parse_sites) + ']',
         '',
         f'/-! dynamic facts: {dyn["count"]} module-level / class-level mutable containers and memo caches of the',
         f'imported package, fingerprinted around the translator\'s fixed battery ({dyn["battery"]} evaluations) -/',
@@ -1781,7 +1995,7 @@ def translate(run: Run) -> dict:
         gen.write_text(text)
     return {'allow_environment_default': bool(allow), 'defuse_xml_default': defuse,
             'lock_type': type(lk).__name__, 'lock_reentrant': reentrant, 'static': f,
-            'static_writers': scan['static_writers'], 'dynamic': dyn}
+            'static_writers': scan['static_writers'], 'dynamic': dyn, 'xml_parse_sites': parse_sites}
 
 
 def replay(run: Run, path: str) -> int:
